@@ -100,3 +100,7 @@ pub struct TrapHandler { pub command: String, pub rest: u8 }
 #[verifier::external_body] pub struct Error { _p: u8 }
 #[verifier::external_body]
 pub fn traps_get_handler<'a>(context: &'a ExecutionContext, signal: &TrapSignal) -> Option<&'a TrapHandler> { unimplemented!() }
+// method form of str::replace(char, &str), so that chained calls keep their shape (R14)
+pub trait VxReplaceChar { spec fn vx_chars(&self) -> Seq<char>; fn vx_replace_char(&self, c: char, with: &str) -> (r: String) ensures r@ == replace_char(self.vx_chars(), c, with@); }
+impl<'a> VxReplaceChar for &'a str { open spec fn vx_chars(&self) -> Seq<char> { self@ } #[verifier::external_body] fn vx_replace_char(&self, c: char, with: &str) -> (r: String) { unimplemented!() } }
+impl VxReplaceChar for String { open spec fn vx_chars(&self) -> Seq<char> { self@ } #[verifier::external_body] fn vx_replace_char(&self, c: char, with: &str) -> (r: String) { unimplemented!() } }
